@@ -215,6 +215,7 @@ def showOpRes : OpRes → String
 def showTimerWhat : TimerWhat → String
   | .mrtb k => s!"mrtb:{k}"
   | .boot j => s!"boot:{j}"
+  | .retry l => s!"retry:{l}"
 
 def showWhat : ReqWhat → String
   | .metadata ts => "meta:" ++ (if ts.isEmpty then "-" else "+".intercalate ts)
@@ -288,6 +289,7 @@ def parseEv : List String → Option Ev
   | ["send", o, g, foe, ex, ks] => do some (.send (← o.toNat?) (← parseKeys ks) (parseGroup g) (← parseBool foe) (← parseBool ex))
   | ["cload", o, g] => do some (.cload (← o.toNat?) g)
   | ["srtc", o, g, m] => do some (.srtc (← o.toNat?) g (← if m == "-" then some none else (parseRat m).map some))
+  | ["ltp", o, ts] => do some (.ltp (← o.toNat?) (splitList "," ts))
   | ["cancel", o] => do some (.cancel (← o.toNat?))
   | ["close", o] => do some (.close (← o.toNat?))
   | ["rtopics", ts] => some (.resetTopics (splitList "," ts))
@@ -308,6 +310,7 @@ def parseTimerWhat (s : String) : Option TimerWhat :=
   match s.splitOn ":" with
   | ["mrtb", k] => k.toNat?.map .mrtb
   | ["boot", j] => j.toNat?.map .boot
+  | ["retry", l] => l.toNat?.map .retry
   | _ => none
 
 def parseWhat (s : String) : Option ReqWhat :=
@@ -371,6 +374,7 @@ def parseTItem : List String → Option TItem
   | ["t-uop", u, o] => do some (.uop (← u.toNat?) (← o.toNat?))
   | ["t-wrote", k, c] => do some (.wrote (← k.toNat?) (← c.toNat?))
   | ["t-lose", c] => do some (.lose (← c.toNat?))
+  | ["t-bootgone", j] => do some (.bootGone (← j.toNat?))
   | "t-net" :: rest => some (.net (" ".intercalate rest))
   | _ => none
 
@@ -387,10 +391,14 @@ def netStep (n : NetSt) (ws : List String) : Option (NetSt × List String) :=
   | ["cfg", t, dot, hosts] => do
     let cfg : Cfg := { timeout := ← parseRat t, disconnectOnTimeout := ← parseBool dot, bootHosts := ← (splitList "," hosts).mapM parseHostPort }
     some ({ cfg := cfg, st := {}, trace := [] }, ["ok"])
+  | ["cfg", t, dot, hosts, retry] => do
+    let cfg : Cfg := { timeout := ← parseRat t, disconnectOnTimeout := ← parseBool dot, bootHosts := ← (splitList "," hosts).mapM parseHostPort,
+                       retryDelay := ← parseRat retry }
+    some ({ cfg := cfg, st := {}, trace := [] }, ["ok"])
   | ["t-reset"] => some ({ n with trace := [] }, ["ok"])
   | ["mon-c07"] => some (n, failsLine (Afkak.Monitor.C07.run n.cfg n.trace.reverse).fails)
-  | ["mon-c11"] => some (n, failsLine (Afkak.Monitor.C11.run n.cfg n.trace.reverse).fails)
-  | ["mon-c20"] => some (n, failsLine (Afkak.Monitor.C20.run n.trace.reverse).fails)
+  | ["mon-c11"] => some (n, failsLine ((Afkak.Monitor.C11.run n.cfg n.trace.reverse).fails ++ (Afkak.Monitor.C11.run n.cfg n.trace.reverse).extraFails))
+  | ["mon-c20"] => some (n, failsLine ((Afkak.Monitor.C20.run n.trace.reverse).fails ++ (Afkak.Monitor.C20.run n.trace.reverse).bootFails))
   | ["mon-iface"] => some (n, failsLine (Afkak.ClientIface.run n.trace.reverse).fails)
   | ["ndump"] =>
     some (n, dump n.st.cache ++
